@@ -294,7 +294,11 @@ func runWorker(bin string, prop, tier string, e engine, shard, nshards int, outD
 	}
 	cmd := exec.Command("bash", append([]string{"-c", sh, "worker"}, args...)...)
 	cmd.Dir = mcRoot
-	cmd.Env = append(env(), "VSCHED_JOURNAL="+out+".journal")
+	// everything a worker creates (socket directories, plugin directories, probe reports) lives under
+	// the run's scratch directory and goes away with it, also when a worker is killed
+	wscratch := filepath.Join(filepath.Dir(outDir), "w")
+	os.MkdirAll(wscratch, 0o755)
+	cmd.Env = append(env(), "VSCHED_JOURNAL="+out+".journal", "VERIF_SCRATCH="+wscratch)
 	if e.Race {
 		cmd.Env = append(cmd.Env, "GORACE=log_path="+out+".race exitcode=0 halt_on_error=0")
 	}
